@@ -60,7 +60,7 @@ class Ctx:
         return self.tier == 'quick'
 
     def n(self, q, t):
-        return q if self.tier == 'quick' else t
+        return q * getattr(self, 'boost', 1) if self.tier == 'quick' else t
 
     # ---- running the two sides ---------------------------------------------------------------
     def run_go(self, lines, timeout_ms=4000, parallel=True):
@@ -203,6 +203,50 @@ def build_all(ctx, lean_targets):
     else:
         ctx.lake_failed = False
     return broken
+
+
+# files whose functions each property's model mirrors (DESIGN appendix A); a changed fingerprint of one of their functions is
+# reported in the evidence and triples the quick tier's generated volume — it is never a verdict by itself
+MODELLED_FILES = {
+    'C01': ['pkg/exec/eval.go', 'pkg/exec/id_match.go', 'pkg/value/number.go', 'pkg/syntax/zh/zh_ast.go'],
+    'C02': ['pkg/exec/eval.go', 'pkg/runtime/vm.go', 'pkg/runtime/callframe.go', 'pkg/error/signal.go'],
+    'C03': ['pkg/syntax/zh/zh_ast.go', 'pkg/syntax/zh/zh_parser.go', 'pkg/syntax/zh/tokens.go', 'pkg/syntax/zh/keyword.go', 'pkg/syntax/lexer.go'],
+    'C04': ['pkg/syntax/zh/tokens.go', 'pkg/syntax/zh/keyword.go', 'pkg/syntax/id_range.go', 'pkg/exec/id_match.go'],
+    'C05': ['pkg/syntax/parser.go', 'pkg/syntax/lexer.go', 'pkg/syntax/zh/tokens.go', 'pkg/syntax/zh/zh_parser.go', 'pkg/syntax/zh/zh_ast.go', 'pkg/exec/error_printer.go', 'pkg/exec/exec_varinput.go'],
+    'C06': ['pkg/runtime/scope.go', 'pkg/runtime/vm.go', 'pkg/exec/eval.go', 'pkg/exec/eval_function.go', 'pkg/exec/globals.go'],
+    'C07': ['pkg/value/value_util.go', 'pkg/exec/eval.go', 'pkg/value/array.go', 'pkg/value/hashmap.go', 'pkg/value/object.go'],
+    'C08': ['pkg/exec/eval_function.go', 'pkg/exec/eval.go', 'pkg/exec/eval_class.go', 'pkg/value/function.go', 'pkg/value/class_model.go', 'pkg/value/object.go', 'pkg/runtime/vm.go', 'pkg/runtime/callframe.go'],
+    'C09': ['pkg/exec/eval.go', 'pkg/exec/eval_function.go', 'pkg/value/function.go', 'pkg/value/exception.go', 'pkg/value/value_util.go', 'pkg/error/signal.go', 'pkg/runtime/vm.go'],
+    'C10': ['pkg/value/array.go', 'pkg/value/hashmap.go', 'pkg/value/string.go', 'pkg/value/number.go', 'pkg/value/value_util.go', 'pkg/value/iv.go', 'pkg/exec/exec_varinput.go', 'pkg/runtime/vm.go'],
+    'C11': ['pkg/exec/eval.go', 'pkg/value/value_util.go', 'pkg/value/hashmap.go', 'pkg/common/elem2json.go', 'pkg/value/object.go', 'pkg/runtime/module.go', 'pkg/server/http_handler.go'],
+    'C12': ['pkg/value/array.go', 'pkg/value/hashmap.go', 'pkg/value/iv.go', 'pkg/exec/eval.go'],
+    'C13': ['pkg/syntax/zh/tokens.go'],
+    'C14': ['pkg/value/string.go', 'pkg/exec/format_str.go', 'pkg/exec/eval.go'],
+    'C15': ['pkg/exec/eval.go', 'pkg/exec/interpreter.go', 'pkg/runtime/module.go', 'pkg/runtime/vm.go', 'pkg/runtime/scope.go'],
+    'C16': ['pkg/exec/globals.go', 'pkg/exec/interpreter.go', 'pkg/exec/eval.go', 'pkg/server/http_handler.go', 'pkg/server/pg_handler.go'],
+    'C17': ['pkg/io/input.go', 'pkg/io/file_stream.go', 'pkg/io/byte_stream.go', 'pkg/exec/interpreter.go'],
+    'C18': ['pkg/exec/error_printer.go', 'pkg/syntax/lexer.go', 'pkg/runtime/vm.go', 'pkg/runtime/callframe.go', 'pkg/exec/eval.go'],
+    'C19': ['pkg/common/elem2json.go', 'stdlib/json/json.go', 'pkg/value/hashmap.go'],
+    'C20': ['pkg/server/pm_server.go', 'pkg/server/util.go'],
+}
+
+
+def check_fingerprints(ctx):
+    try:
+        now = json.load(open(B + '/facts.json')).get('fingerprints', {})
+        base = json.load(open(V + '/tools/fingerprints.json'))
+    except Exception as e:   # noqa
+        ctx.notes.append('fingerprints unavailable: %s' % e)
+        return
+    files = MODELLED_FILES.get(ctx.pid, [])
+    changed = []
+    for k in sorted(set(now) | set(base)):
+        if k.split('|')[0] in files and now.get(k) != base.get(k):
+            changed.append(k + (' (new)' if k not in base else ' (gone)' if k not in now else ''))
+    ctx.fingerprints_changed = changed
+    if changed:
+        ctx.boost = 3
+        ctx.notes.append('modelled functions edited since the model was written: quick-tier volume ×3')
 
 
 def audit(ctx, pid):
